@@ -177,10 +177,16 @@ func (c *MemoryCache[MetadataT]) cacheInternal(key CacheKey, data io.Reader, exp
 	}
 
 	c.mu.Lock()
+	replaced, overwrite := c.entries[key]
 	c.entries[key] = internalEntry
 	c.mu.Unlock()
 
-	incrementCacheEntries()
+	if overwrite {
+		// The key already had an entry: it leaves the accounting, the entry count stays.
+		decrementCacheSize(&c.byteSize, replaced.meta.Size)
+	} else {
+		incrementCacheEntries()
+	}
 	addCacheSize(&c.byteSize, int64(count))
 
 	return &Entry[MetadataT]{
